@@ -363,6 +363,63 @@ Proof.
   intros s r Hb. split; [intros l s'; apply blocked_stays; exact Hb|intros; apply blocked_resumes; assumption].
 Qed.
 
+(* ---------- the re-authentication is started, and a fertile one releases everybody ---------- *)
+
+(* a vault that is not ready always lets the authenticator move: start a login, or deliver its result *)
+Lemma reauth_enabled : forall s,
+  ready s = false ->
+  (busy s = false -> exists s', step s WakeEmpty = Some s' /\ busy s' = true /\ wakes s' = S (wakes s)) /\
+  (busy s = true -> forall src, exists s', step s (Populate src) = Some s' /\ ready s' = true /\ busy s' = false).
+Proof.
+  intros s Hr. split.
+  - intros Hb. simpl. rewrite Hr, Hb. simpl. eexists. split; [reflexivity|]. split; reflexivity.
+  - intros Hb src. simpl. rewrite Hb. destruct (update_converted src (cur s) (inv s) (nextid s)).
+    eexists. split; [reflexivity|]. split; reflexivity.
+Qed.
+
+(* a login result is fertile if it carries at least one set of credentials not remembered as invalid *)
+Definition fertile (src : list (nat * Z * Z)) (iv : list (nat * list item)) : Prop :=
+  exists k c p, In (k, c, p) src /\ cred_in c (hist k iv) = false.
+
+Lemma setn_nonempty : forall {A} k (v : A) l, setn k v l <> [].
+Proof. intros A k v [|[k0 v0] l]; simpl; [discriminate|]. destruct (Nat.eqb k k0); discriminate. Qed.
+
+Lemma update_converted_nonempty : forall src c iv n c' n',
+  update_converted src c iv n = (c', n') -> c <> [] \/ fertile src iv -> c' <> [].
+Proof.
+  induction src as [|[[k cr] p] src IH]; intros c iv n c' n' H Hor; simpl in H.
+  - injection H as <- <-. destruct Hor as [Hc|(k & c0 & p & [] & _)]. exact Hc.
+  - destruct (cred_in cr (hist k iv)) eqn:E.
+    + apply (IH _ _ _ _ _ H). destruct Hor as [Hc|(k0 & c0 & p0 & Hin & Hcr)]; [left; exact Hc|].
+      destruct Hin as [Heq|Hin]; [injection Heq as -> -> ->; congruence|]. right. exists k0, c0, p0. auto.
+    + apply (IH _ _ _ _ _ H). left. apply setn_nonempty.
+Qed.
+
+(* after a fertile login EVERY blocked requester is still there, can resume, and can only resume *)
+Lemma all_blocked_resume : forall s src s',
+  step s (Populate src) = Some s' -> fertile src (inv s) ->
+  ready s' = true /\ cur s' <> [] /\
+  forall r, rget r s = RBlocked ->
+    rget r s' = RBlocked /\
+    (exists s'', step s' (Wake r WResumed) = Some s'' /\ rget r s'' = RIdle /\ cur s'' = cur s' /\ ready s'' = true) /\
+    (forall o s'', step s' (Wake r o) = Some s'' -> o = WResumed).
+Proof.
+  intros s src s' H Hf. simpl in H. destruct (busy s); [|discriminate].
+  destruct (update_converted src (cur s) (inv s) (nextid s)) as [c' n'] eqn:Hu.
+  injection H as <-.
+  assert (Hne : c' <> []) by (eapply update_converted_nonempty; [exact Hu|right; exact Hf]).
+  split; [reflexivity|]. split; [exact Hne|].
+  intros r Hb.
+  match goal with
+  | |- rget r ?s1 = _ /\ _ =>
+      assert (Hb' : rget r s1 = RBlocked) by exact Hb;
+      split; [exact Hb'|]; apply blocked_resumes; [exact Hb'|reflexivity|exact Hne]
+  end.
+Qed.
+
+Example fertile_example : fertile [(0, 11%Z, 0%Z)] [(0, [{| iid := 0; cred := 10%Z; prio := 0%Z |}])].
+Proof. exists 0, 11%Z, 0%Z. split; [left; reflexivity|reflexivity]. Qed.
+
 (* credentials equal to one of the (at most 3) remembered invalid ones of their key are never current *)
 Lemma no_reuse_within_history : forall src tr s k it,
   run (init src) tr = Some s -> lookupn k (cur s) = Some it ->
@@ -460,3 +517,31 @@ Example burst_example :
   | None => (0, [], [], false)
   end = (1, [0], [(0, 1)], true).
 Proof. vm_compute. reflexivity. Qed.
+
+(* ---------- non-vacuity of the hypotheses used above ---------- *)
+Definition blocked_trace : list vlabel := [Select 1 0 0; Select 2 0 0; Invalidate 1 true; Invalidate 2 true; WakeEmpty].
+
+(* a reachable state with two requesters blocked on the same invalidated item while the login runs;
+   a fertile Populate is enabled there *)
+Example blocked_example :
+  exists s, run (init [(0, 10%Z, 0%Z)]) blocked_trace = Some s /\
+    rget 1 s = RBlocked /\ rget 2 s = RBlocked /\ ready s = false /\ busy s = true /\
+    fertile [(0, 11%Z, 0%Z)] (inv s) /\
+    exists s', step s (Populate [(0, 11%Z, 0%Z)]) = Some s'.
+Proof.
+  destruct (run (init [(0, 10%Z, 0%Z)]) blocked_trace) as [s|] eqn:H; [|vm_compute in H; discriminate].
+  exists s. split; [reflexivity|]. vm_compute in H. injection H as <-.
+  repeat split; try reflexivity.
+  - exists 0, 11%Z, 0%Z. split; [left; reflexivity|reflexivity].
+  - eexists. vm_compute. reflexivity.
+Qed.
+
+(* a reachable state with a current item (hypotheses of the no-reuse / fresh-selection theorems) *)
+Example current_example :
+  exists s it s', run (init [(0, 10%Z, 0%Z)]) reuse_trace1 = Some s /\ lookupn 0 (cur s) = Some it /\
+    step s (Select 1 0 1) = Some s' /\ step s (Select 1 0 0) = None.
+Proof.
+  destruct (run (init [(0, 10%Z, 0%Z)]) reuse_trace1) as [s|] eqn:H; [|vm_compute in H; discriminate].
+  vm_compute in H. injection H as <-. eexists. eexists. eexists.
+  split; [reflexivity|]. split; [vm_compute; reflexivity|]. split; vm_compute; reflexivity.
+Qed.
